@@ -46,6 +46,9 @@ def gen_case(rng, uid):
     fault = rng.choice([None, None, None, "duplicate", "defaults", "import", "syntax", "ctor"])
     missing = rng.random() < 0.04 or "." in pkg
     nmod = rng.choice([0, 1, 2, 3, 5])
+    big = rng.random() < 0.03       # a big package: five modules of four modes each
+    if big:
+        nmod = 5
     modules = []
     names_used = []
     stems = ["m", "m", "deploy", "jump", "happy", "stay", "drive_left", "two_ball_py", "copy", "step", "p", "y", "py_", "spy"]
@@ -55,8 +58,8 @@ def gen_case(rng, uid):
         mod_names.append(st if st not in mod_names and st != "m" else f"{st}{mi}")
     for mi in range(nmod):
         classes = []
-        for ci in range(rng.choice([0, 1, 1, 2, 4])):
-            r = rng.random()
+        for ci in range(rng.choice([0, 1, 1, 2, 4]) if not big else 4):
+            r = rng.random() if not big else 0.1
             c = {"cls": f"K{mi}_{ci}", "mode_name": None, "disabled": False, "default": False, "fail_ctor": False}
             if r < 0.75:
                 c["mode_name"] = f"mode{mi}{ci}{uid}"
@@ -99,7 +102,7 @@ def gen_case(rng, uid):
             elif fault == "import" and rng.random() < 0.4:
                 m["broken"] = "import-sibling"   # `from .helper_that_does_not_exist import X`: ModuleNotFoundError naming <pkg>.<x>
             applied = "import"
-    elif fault == "ctor" and len(eligible) >= 6 and rng.random() < 0.3:
+    elif fault == "ctor" and len(eligible) >= 6 and (big or rng.random() < 0.3):
         # many failing constructors at once (a whole family of modes broken by one change)
         for _m, c_ in rng.sample(eligible, 5):
             c_["fail_ctor"] = True
